@@ -289,3 +289,144 @@ pub(crate) fn forced_backend() -> u8 {
 pub fn selected_backend() -> u8 {
     crate::backend::verif_selected_backend()
 }
+
+// ------------------------------------------------------------------------------------------
+// H3: unpacked scalar kernels
+// ------------------------------------------------------------------------------------------
+
+cfg_if::cfg_if! {
+    if #[cfg(curve25519_dalek_backend = "fiat")] {
+        #[cfg(curve25519_dalek_bits = "32")]
+        use crate::backend::serial::fiat_u32::scalar::Scalar29 as UnpackedScalar;
+        #[cfg(curve25519_dalek_bits = "64")]
+        use crate::backend::serial::fiat_u64::scalar::Scalar52 as UnpackedScalar;
+    } else if #[cfg(curve25519_dalek_bits = "64")] {
+        use crate::backend::serial::u64::scalar::Scalar52 as UnpackedScalar;
+    } else {
+        use crate::backend::serial::u32::scalar::Scalar29 as UnpackedScalar;
+    }
+}
+
+/// Number of limbs of the unpacked scalar (5 x 52 bits or 9 x 29 bits).
+pub const SC_LIMBS: usize = {
+    cfg_if::cfg_if! {
+        if #[cfg(curve25519_dalek_bits = "64")] { 5 } else { 9 }
+    }
+};
+/// Bits per scalar limb.
+pub const SC_LIMB_BITS: u32 = {
+    cfg_if::cfg_if! {
+        if #[cfg(curve25519_dalek_bits = "64")] { 52 } else { 29 }
+    }
+};
+
+/// An unpacked scalar with raw-limb access.
+#[derive(Copy, Clone)]
+pub struct Usc(pub(crate) UnpackedScalar);
+
+impl Usc {
+    pub fn from_limbs(l: &[u64]) -> Usc {
+        assert_eq!(l.len(), SC_LIMBS);
+        cfg_if::cfg_if! {
+            if #[cfg(curve25519_dalek_bits = "64")] {
+                Usc(UnpackedScalar([l[0], l[1], l[2], l[3], l[4]]))
+            } else {
+                let mut a = [0u32; 9];
+                for i in 0..9 {
+                    assert!(l[i] <= u32::MAX as u64);
+                    a[i] = l[i] as u32;
+                }
+                Usc(UnpackedScalar(a))
+            }
+        }
+    }
+    pub fn limbs(&self) -> Vec<u64> {
+        (self.0).0.iter().map(|x| *x as u64).collect()
+    }
+    pub fn from_bytes(b: &[u8; 32]) -> Usc {
+        Usc(UnpackedScalar::from_bytes(b))
+    }
+    pub fn from_bytes_wide(b: &[u8; 64]) -> Usc {
+        Usc(UnpackedScalar::from_bytes_wide(b))
+    }
+    pub fn as_bytes(&self) -> [u8; 32] {
+        self.0.as_bytes()
+    }
+    pub fn add(a: &Usc, b: &Usc) -> Usc {
+        Usc(UnpackedScalar::add(&a.0, &b.0))
+    }
+    pub fn sub(a: &Usc, b: &Usc) -> Usc {
+        Usc(UnpackedScalar::sub(&a.0, &b.0))
+    }
+    pub fn mul(a: &Usc, b: &Usc) -> Usc {
+        Usc(UnpackedScalar::mul(&a.0, &b.0))
+    }
+    pub fn square(&self) -> Usc {
+        Usc(self.0.square())
+    }
+    pub fn montgomery_mul(a: &Usc, b: &Usc) -> Usc {
+        Usc(UnpackedScalar::montgomery_mul(&a.0, &b.0))
+    }
+    pub fn montgomery_square(&self) -> Usc {
+        Usc(self.0.montgomery_square())
+    }
+    pub fn as_montgomery(&self) -> Usc {
+        Usc(self.0.as_montgomery())
+    }
+    pub fn from_montgomery(&self) -> Usc {
+        Usc(self.0.from_montgomery())
+    }
+    pub fn montgomery_invert(&self) -> Usc {
+        Usc(self.0.montgomery_invert())
+    }
+    pub fn invert(&self) -> Usc {
+        Usc(self.0.invert())
+    }
+    /// `montgomery_reduce(mul_internal(a, b))`, the composition every caller uses.
+    pub fn mul_internal_then_reduce(a: &Usc, b: &Usc) -> Usc {
+        Usc(UnpackedScalar::montgomery_reduce(&UnpackedScalar::mul_internal(&a.0, &b.0)))
+    }
+    /// The raw double-width product limbs.
+    pub fn mul_internal(a: &Usc, b: &Usc) -> Vec<u128> {
+        UnpackedScalar::mul_internal(&a.0, &b.0).iter().map(|x| *x as u128).collect()
+    }
+}
+
+/// Crate-private scalar constants `(name, limbs)` and `LFACTOR`.
+pub fn scalar_constants() -> (Vec<(&'static str, Usc)>, u64) {
+    use crate::constants as k;
+    let mut v = Vec::new();
+    v.push(("L", Usc(k::L)));
+    v.push(("R", Usc(k::R)));
+    v.push(("RR", Usc(k::RR)));
+    (v, k::LFACTOR as u64)
+}
+
+// ------------------------------------------------------------------------------------------
+// H4: scalar recodings
+// ------------------------------------------------------------------------------------------
+
+use crate::scalar::Scalar;
+
+/// A `Scalar` holding exactly these bytes (no reduction).  Callers must respect the
+/// documented invariant `bytes[31] <= 127` for every operation that requires it.
+pub fn scalar_from_raw_bytes(bytes: [u8; 32]) -> Scalar {
+    Scalar { bytes }
+}
+pub fn as_radix_16(s: &Scalar) -> [i8; 64] {
+    s.as_radix_16()
+}
+#[cfg(any(feature = "alloc", all(test, feature = "precomputed-tables")))]
+pub fn as_radix_2w(s: &Scalar, w: usize) -> [i8; 64] {
+    s.as_radix_2w(w)
+}
+#[cfg(any(feature = "alloc", all(test, feature = "precomputed-tables")))]
+pub fn to_radix_2w_size_hint(w: usize) -> usize {
+    Scalar::to_radix_2w_size_hint(w)
+}
+pub fn non_adjacent_form(s: &Scalar, w: usize) -> [i8; 256] {
+    s.non_adjacent_form(w)
+}
+pub fn bits_le(s: &Scalar) -> Vec<bool> {
+    s.bits_le().collect()
+}
